@@ -26,7 +26,13 @@ type Slicer struct {
 	// KeepExtract: an extracted tuple component of a call is reported as the
 	// terminal (so that the result index is known) instead of the call.
 	KeepExtract bool
-	maxDepth    int
+	// ThroughFieldsOfAllocs: a load of a field of a local struct variable
+	// continues into the values stored to that field.
+	ThroughFieldsOfAllocs bool
+	// ThroughDeref: a load through a pointer that is itself a computed value
+	// (call result, parameter) continues into the pointer's provenance.
+	ThroughDeref bool
+	maxDepth     int
 }
 
 // Origins returns the terminal values of the backward slice of v.
@@ -92,6 +98,33 @@ func (s *Slicer) Origins(v ssa.Value) []ssa.Value {
 						addTerm(v)
 					}
 					return
+				}
+				if fa, ok := x.X.(*ssa.FieldAddr); ok && s.ThroughFieldsOfAllocs {
+					if al, ok := fa.X.(*ssa.Alloc); ok {
+						n := 0
+						for _, u := range usesOf(al) {
+							fa2, ok := u.(*ssa.FieldAddr)
+							if !ok || fa2.Field != fa.Field {
+								continue
+							}
+							for _, uu := range usesOf(fa2) {
+								if st, ok := uu.(*ssa.Store); ok && st.Addr == ssa.Value(fa2) {
+									visit(st.Val, resIdx, depth)
+									n++
+								}
+							}
+						}
+						if n > 0 {
+							return
+						}
+					}
+				}
+				if s.ThroughDeref {
+					switch x.X.(type) {
+					case *ssa.Extract, *ssa.Call, *ssa.Parameter, *ssa.Phi:
+						visit(x.X, resIdx, depth)
+						return
+					}
 				}
 				addTerm(v)
 				return
